@@ -12,6 +12,7 @@ import Ldap3V.Lemmas.RequestsBytes
 import Ldap3V.Lemmas.RequestsHandle
 import Ldap3V.Props.C07
 import Ldap3V.Lemmas.FilterShape
+import Ldap3V.Lemmas.FilterNesting
 namespace Ldap3V
 open Spec
 
@@ -120,7 +121,7 @@ theorem C02_parsed_filter_ok (s : Bytes) (t : Tag) (h : Filter.parse s = some t)
     (base : Bytes) (scope : Scope) (deref : Deref) (sizeLimit timeLimit : Int) (typesOnly : Bool)
     (attrs : List Bytes) :
     FilterOk (.search base scope deref sizeLimit timeLimit typesOnly t.toTlv attrs) := by
-  obtain ⟨h1, _, h3, _, h5, _⟩ := Filter.parse_shape h
+  obtain ⟨h1, _, h3, _, h5, _⟩ := Filter.parse_shape (Filter.parse_core h)
   refine ⟨h1, ?_⟩
   rcases hn with hn | ⟨hh, hn⟩
   · omega
@@ -151,9 +152,10 @@ theorem C02_every_sent_message_parsed (calls : List HandleCall) (m : Sent) (hm :
   C02_every_sent_message calls m hm hr
     (by rw [hreq]; exact C02_parsed_filter_ok s t h hn base scope deref sizeLimit timeLimit typesOnly attrs) hid hl
 
-/-- The depth side condition is not an artefact: `parse_filter` has no depth limit (`C08_any_depth_accepted`),
-lber's parser has (`maxDepth` = 64, two of which are LDAPMessage and SearchRequest).  A Search whose filter
-string nests deeper than 63 is WRITTEN, and the library's own parser answers `error` on the message. -/
+/-- The depth side condition is not an artefact: `parse_filter` accepts up to 128 levels of parentheses
+(`C08_depth_limit`), lber's parser stops at `maxDepth` = 64, two of which are LDAPMessage and SearchRequest.
+A Search whose filter string nests deeper than 63 (and at most 128) is WRITTEN, and the library's own parser
+answers `error` on the message. -/
 theorem C02_deep_filter_not_read_back (id : Nat) (s : Bytes) (t : Tag) (h : Filter.parse s = some t)
     (hn : 63 < Filter.nest 0 s)
     (base : Bytes) (scope : Scope) (deref : Deref) (sizeLimit timeLimit : Int) (typesOnly : Bool)
@@ -162,7 +164,7 @@ theorem C02_deep_filter_not_read_back (id : Nat) (s : Bytes) (t : Tag) (h : Filt
       < 18446744073709551616) :
     parseTag (encodeMsg (id : Int) (build (.search base scope deref sizeLimit timeLimit typesOnly t.toTlv attrs)) cs)
       = .error := by
-  obtain ⟨h1, _, _, h4, _⟩ := Filter.parse_shape h
+  obtain ⟨h1, _, _, h4, _⟩ := Filter.parse_shape (Filter.parse_core h)
   exact search_deep_not_read_back id base scope deref sizeLimit timeLimit typesOnly _ attrs cs h1 (by omega) hl
 
 /-! ### non-vacuity (tests, labelled as such) -/
@@ -202,7 +204,7 @@ example : (Filter.parse [0x28, 0x26, 0x28, 0x63, 0x6e, 0x3d, 0x2a, 0x29, 0x28, 0
     Filter.nest 0 [0x28, 0x26, 0x28, 0x63, 0x6e, 0x3d, 0x2a, 0x29, 0x28, 0x61, 0x3d, 0x62, 0x29, 0x29] ≤ 60 := by decide
 example : (∃ t, Filter.parse (Filter.notStr 63 [0x28, 0x61, 0x3D, 0x62, 0x29]) = some t) ∧
     63 < Filter.nest 0 (Filter.notStr 63 [0x28, 0x61, 0x3D, 0x62, 0x29]) := by
-  obtain ⟨t, h, _⟩ := Filter.parse_notN 63
+  obtain ⟨t, h, _⟩ := (Filter.parse_notStr 63).1 (by decide)
   exact ⟨⟨t, h⟩, by rw [Filter.nest_notStr]; decide⟩
 
 end Ldap3V
